@@ -120,14 +120,17 @@ def rmat(rng, r, c, lo, hi, den, zero_p=0.0):
 
 
 def gen_A(rng, n, kind):
-    if kind == "rational":
+    """kinds: stable / unstable (eighths), fine (thirds, fifths ... rounded to 1/1024), float53 (p/q as the nearest double:
+    53-bit dyadics, exact Coq evaluation is costly: used for short records only)"""
+    if kind in ("fine", "float53"):
         A = [[Fraction(rng.randint(-3, 3), rng.choice([3, 5, 7, 9])) if rng.random() < 0.8 else Fraction(0) for _ in range(n)] for _ in range(n)]
-        den = 1
     else:
         A = rmat(rng, n, n, -5, 5, 8, 0.25)
-    for i in range(n):       # make the infinity norm < 1 (stable) keeping entries dyadic
+    for i in range(n):       # make the infinity norm < 1 (stable)
         while sum(abs(x) for x in A[i]) >= 1:
             A[i] = [x / 2 for x in A[i]]
+    if kind == "fine":
+        A = [[Fraction(round(x * 1024), 1024) for x in r] for r in A]
     if kind == "unstable":   # mildly unstable / unit root on one state
         i = rng.randrange(n)
         A[i][i] = rng.choice([Fraction(9, 8), Fraction(5, 4), Fraction(1), Fraction(-9, 8), Fraction(17, 16)])
@@ -190,7 +193,9 @@ def gen_model(rng, n=None, kindA=None):
     m = rng.choice([1, 2, 3])
     k = rng.choice([1, 1, 2, 2, 3])
     l = rng.choice([1, 2, 3])
-    kindA = kindA or rng.choice(["stable", "stable", "unstable", "rational"])
+    kindA = kindA or rng.choice(["stable", "stable", "unstable", "unstable", "fine", "fine", "float53"])
+    if kindA == "float53":
+        n = min(n, 2)
     kindC = rng.choice(["full", "full", "singular", "zero"])
     kindH = rng.choice(["full", "full", "singular", "zero"])
     d = dict(n=n, m=m, k=k, l=l, kindA=kindA, kindC=kindC, kindH=kindH,
@@ -314,7 +319,7 @@ def gen_obs(rng, k, t):
     if mode == 1:
         return [rmat(rng, k, 1, -4000, 4000, 4) for _ in range(t)]
     if mode == 2:
-        return [[[Fraction(rng.uniform(-3, 3)).limit_denominator(64)] for _ in range(k)] for _ in range(t)]
+        return [[[Fraction(round(rng.uniform(-3, 3) * 4096), 4096)] for _ in range(k)] for _ in range(t)]
     return [[[Fraction(0)] for _ in range(k)] if rng.random() < 0.5 else rmat(rng, k, 1, -8, 8, 4) for _ in range(t)]
 
 
@@ -324,9 +329,7 @@ def kalman_checks(ctx, N):
     while len(cases) < N and tries < 20 * N:
         tries += 1
         d = gen_model(ctx.rng)
-        if d["kindA"] == "rational" and d["n"] > 3:
-            continue
-        t = ctx.rng.choice([1, 2, 3, 4, 5, 6, 6]) if d["kindA"] != "rational" else ctx.rng.choice([1, 2, 3, 4])
+        t = ctx.rng.choice([1, 2, 3, 4, 5, 6, 6]) if d["kindA"] != "float53" else ctx.rng.choice([1, 2])
         ys = [fm(fl(y)) for y in gen_obs(ctx.rng, d["k"], t)]
         ob = oracle_batch(d, ys)
         if ob is None:
@@ -423,7 +426,7 @@ def stationary_checks(ctx, N):
         meta.append(inp)
     ok = ("fun c => let '(n, m, k, l, A, C, G, H, Sg, Kg) := c in "
           "osome (Qss_close %s) (stationary_K n k l A G H Sg) Kg && "
-          "osome (fun a b => Qss_close %s (snd a) b) (update n m k l A C G H (mzero n 1, Sg) (mzero k 1)) Sg" % (T9, T7))
+          "match update n m k l A C G H (mzero n 1, Sg) (mzero k 1) with Some a => Qss_close %s (snd a) Sg | None => false end" % (T9, T7))
     bad = ctx.coq_check("kalman_stationary_values", IMPORTS, "nat * nat * nat * nat * Qmat * Qmat * Qmat * Qmat * Qmat * Qmat", ok,
                         cases, chunk=max(1, len(cases) // 6), preamble=PRE)
     for i in bad:
@@ -438,7 +441,7 @@ def lss_checks(ctx, N):
         d = gen_model(ctx.rng)
         with_H = ctx.rng.random() < 0.7
         ss = mk_lss(d, with_H)
-        T = ctx.rng.choice([1, 2, 3, 4, 5, 6]) if d["kindA"] != "rational" else ctx.rng.choice([1, 2, 3])
+        T = ctx.rng.choice([1, 2, 3, 4, 5, 6]) if d["kindA"] != "float53" else ctx.rng.choice([1, 2, 3])
         n, m, k, l = d["n"], d["m"], d["k"], d["l"]
         A, C, G, H, mu0, S0 = d["A"], d["C"], d["G"], d["H"], d["mu0"], d["S0"]
         inp = dict(model_json(d), with_H=with_H, T=T)
@@ -546,17 +549,23 @@ class RecordingRS(np.random.RandomState):
     def __init__(self, seed):
         super().__init__(seed)
         self.log = []
+        self.nested = False
 
     def multivariate_normal(self, mean, cov, *a, **kw):
-        with warnings.catch_warnings():
-            warnings.simplefilter("ignore")
-            v = super().multivariate_normal(mean, cov, *a, **kw)
+        self.nested = True       # the legacy implementation draws through self.standard_normal
+        try:
+            with warnings.catch_warnings():
+                warnings.simplefilter("ignore")
+                v = super().multivariate_normal(mean, cov, *a, **kw)
+        finally:
+            self.nested = False
         self.log.append(("mvn", np.array(mean, dtype=float).tolist(), np.array(cov, dtype=float).tolist(), np.array(v).tolist()))
         return v
 
     def standard_normal(self, size=None):
         v = super().standard_normal(size)
-        self.log.append(("sn", tuple(size), np.array(v).tolist()))
+        if not self.nested:
+            self.log.append(("sn", tuple(size), np.array(v).tolist()))
         return v
 
 
@@ -721,7 +730,7 @@ def kernel_checks(ctx, N):
 def gen_const_model(rng, nc_kind):
     """nc_kind: 'one' (a unit constant state at a random position), 'none', 'two' (rejected by the code)"""
     n = rng.choice([2, 3, 3, 4]) if nc_kind != "none" else rng.choice([1, 2, 3])
-    d = gen_model(rng, n=n, kindA=rng.choice(["stable", "stable", "rational"]))
+    d = gen_model(rng, n=n, kindA=rng.choice(["stable", "stable", "fine"]))
     n, m = d["n"], d["m"]
     if all(all(x == 0 for x in r) for r in d["C"]):
         d["C"] = gen_C(rng, n, m, "full")
